@@ -509,17 +509,30 @@ def grid_cases():
                         opts['attempt_based_credit'] = {'credit': ['const', [sched]]}
                     cases.append({'kind': 'grid-string', 'spec': {'cls': 'StringGrader', 'opts': opts}, 'input': x,
                                   'attempt': 2 if sched is not None else None, 'expect': None})
-    # B. FormulaGrader: comparer verdict x answer credit x failable_evals x attempt credit
+    # B. FormulaGrader / NumericalGrader: comparer verdict (incl. dictionaries with a message on success) x answer credit
+    #    x number of comparer results (samples) x failable_evals x attempt credit
     for vi in range(len(G.VERDICTS)):
         for c in (0, 0.5, 1):
-            for failable in (0, 1):
+            for samples, failable in ((1, 0), (2, 0), (2, 1)):
                 for sched in (None, 0.5):
                     opts = {'answers': {'expect': {'comparer': {'fn': 'cmp_const_%d' % vi}, 'comparer_params': ['1']},
-                                        'grade_decimal': c, 'msg': 'am'}, 'samples': 2, 'failable_evals': failable}
+                                        'grade_decimal': c, 'msg': 'am'}, 'samples': samples, 'failable_evals': failable}
                     if sched is not None:
                         opts['attempt_based_credit'] = {'credit': ['const', [sched]]}
                     cases.append({'kind': 'grid-formula', 'spec': {'cls': 'FormulaGrader', 'opts': opts}, 'input': '1',
                                   'attempt': 3 if sched is not None else None, 'expect': None})
+            nopts = {'answers': {'t': [{'expect': {'comparer': {'fn': 'cmp_const_%d' % vi}, 'comparer_params': ['1']},
+                                        'grade_decimal': c}, {'expect': '7', 'msg': 'seven'}]}}
+            cases.append({'kind': 'grid-formula', 'spec': {'cls': 'NumericalGrader', 'opts': nopts}, 'input': '1',
+                          'attempt': None, 'expect': None})
+            # C. the same leaf as a ListGrader subgrader (ordered list of subgraders, and unordered single subgrader)
+            ans = {'expect': {'comparer': {'fn': 'cmp_const_%d' % vi}, 'comparer_params': ['1']}, 'grade_decimal': c, 'msg': 'am'}
+            cases.append({'kind': 'grid-formula', 'attempt': None, 'expect': None, 'input': ['a', '1'],
+                          'spec': {'cls': 'ListGrader', 'opts': {'answers': ['a', ans], 'ordered': True,
+                                   'subgraders': [{'g': {'cls': 'StringGrader', 'opts': {}}}, {'g': {'cls': 'NumericalGrader', 'opts': {}}}]}}})
+            cases.append({'kind': 'grid-formula', 'attempt': None, 'expect': None, 'input': ['1', '2'],
+                          'spec': {'cls': 'ListGrader', 'opts': {'answers': [ans, '2'],
+                                   'subgraders': {'g': {'cls': 'NumericalGrader', 'opts': {}}}}}})
     return cases
 
 
@@ -561,8 +574,8 @@ def gen_cases(rng, counts, rounded_share=0.12):
             gen = G.Gen(rng, rounded=(rng.random() < rounded_share))
             k = rng.randint(2, 5)        # several inputs per configuration
             if kind in ('string', 'table', 'numerical', 'matrix', 'formula'):
-                if kind == 'formula':
-                    spec, pool, _ = gen.formula_spec()
+                if kind in ('formula', 'numerical', 'matrix'):
+                    spec, pool, _ = getattr(gen, kind + '_spec')()
                 else:
                     spec, pool = getattr(gen, kind + '_spec')()
                 if rng.random() < 0.08 and kind in ('string', 'numerical', 'formula'):
